@@ -23,8 +23,10 @@ import (
 	"github.com/acquirecloud/golibs/kvs/genproto/golibskvspb/v1"
 	"github.com/acquirecloud/golibs/ulidutils"
 	"github.com/go-redis/redis/v8"
+	"github.com/gobwas/glob"
 	"google.golang.org/protobuf/proto"
 	"google.golang.org/protobuf/types/known/timestamppb"
+	"strings"
 	"time"
 )
 
@@ -35,6 +37,7 @@ type (
 
 	keysIterator struct {
 		si  *redis.ScanIterator
+		g   glob.Glob
 		val *string
 	}
 )
@@ -198,8 +201,19 @@ func (c *client) WaitForVersionChange(ctx context.Context, key, ver string) erro
 
 // ListKeys allows to read the keys by the pattern provided.
 func (c *client) ListKeys(ctx context.Context, pattern string) (iterable.Iterator[string], error) {
-	si := c.rdb.Scan(ctx, 0, rKey(pattern), 1000).Iterator()
-	return &keysIterator{si: si}, nil
+	// The contract defines the pattern syntax by github.com/gobwas/glob. Redis MATCH speaks another dialect
+	// (no {a,b} alternatives, the class negation is [^a] but not [!a]), so the keys are matched here, and Redis
+	// pre-selects them only if the pattern means the same in both dialects
+	p := rKey(pattern)
+	g, err := glob.Compile(p)
+	if err != nil {
+		return nil, fmt.Errorf("could not compile the pattern %q: %w", pattern, err)
+	}
+	if strings.ContainsAny(pattern, "{}!^\\") {
+		p = rKey("*")
+	}
+	si := c.rdb.Scan(ctx, 0, p, 1000).Iterator()
+	return &keysIterator{si: si, g: g}, nil
 }
 
 func (c *client) Close() error {
@@ -272,8 +286,10 @@ func db2rec(buf []byte) kvs.Record {
 var _ iterable.Iterator[string] = (*keysIterator)(nil)
 
 func (k *keysIterator) HasNext() bool {
-	if k.val == nil && k.si.Next(context.Background()) {
-		k.val = cast.Ptr(key(k.si.Val()))
+	for k.val == nil && k.si.Next(context.Background()) {
+		if k.g == nil || k.g.Match(k.si.Val()) {
+			k.val = cast.Ptr(key(k.si.Val()))
+		}
 	}
 	return k.val != nil
 }
